@@ -18,7 +18,7 @@ import (
 )
 
 func TestVerifC10PoolHTTP1(t *testing.T) {
-	c09.MainAccounting(t, c09HTTP{}, c09.AccSpec{ConnPerStream: true}, 6, 9)
+	c09.MainAccounting(t, c09HTTP{}, c09.AccSpec{ConnPerStream: true}, 7, 10)
 }
 
 // Built with the "c09http" rewrite set (the "proxy" set plus pkg/stream/http).
